@@ -57,7 +57,9 @@ def looks_lexically_unsafe(triples):
     for s, p, o in triples:
         if o[0] == "lit" and not o[3] and o[2].endswith("string"):
             lex = o[1].strip()
-            if lex == "" or lex[0] in "<_\"'" or lex[0].isdigit() or lex[0] in "+-.":
+            if lex == "":
+                continue        # the empty string is an ordinary plain literal
+            if lex[0] in "<_\"'" or lex[0].isdigit() or lex[0] in "+-.":
                 return True
             try:
                 float(lex)
